@@ -1,6 +1,7 @@
 package main
 
 import (
+	"fmt"
 	"go/ast"
 	"go/constant"
 	"go/token"
@@ -160,6 +161,103 @@ func checkCursorContract(p *Prog, r *Result, pkg *packages.Package, rule string)
 	})
 	if nStores == 0 {
 		r.Undecided(rule, funcKey("syntax", fd)+"#cursor store", fd.Pos(), "fill no longer stores the cursor: the contract its callers rely on is made somewhere this rule does not look")
+	}
+	// The other half of the contract: fill never drops a byte that was not read yet. rune() calls it in the middle of
+	// a multi-byte rune and, when it answers 0, goes on to slice p.bs[p.bsp:p.bsp+w] — the bytes it looked at before
+	// the call. So every store to p.bs in fill keeps `left` = len(p.bs) - int(p.bsp) bytes (a slice of the read
+	// buffer up to left or beyond, after they were copied to its start), or stores nil where left is not positive.
+	var leftObj types.Object
+	inspectNoLit(fd.Body, func(n ast.Node) bool {
+		as, ok := n.(*ast.AssignStmt)
+		if !ok || as.Tok != token.DEFINE || len(as.Lhs) != 1 || len(as.Rhs) != 1 {
+			return true
+		}
+		be, ok := ast.Unparen(as.Rhs[0]).(*ast.BinaryExpr)
+		if !ok || be.Op != token.SUB || !isLenBs(be.X) {
+			return true
+		}
+		if y := stripConv(info, be.Y); isField(y, bspF) {
+			if id, ok := as.Lhs[0].(*ast.Ident); ok {
+				leftObj = info.Defs[id]
+			}
+		}
+		return true
+	})
+	isLeft := func(e ast.Expr) bool {
+		id, ok := ast.Unparen(e).(*ast.Ident)
+		return ok && leftObj != nil && info.Uses[id] == leftObj
+	}
+	nBs := 0
+	inspectNoLit(fd.Body, func(n ast.Node) bool {
+		as, ok := n.(*ast.AssignStmt)
+		if !ok || len(as.Lhs) != len(as.Rhs) {
+			return true
+		}
+		for i, l := range as.Lhs {
+			if !isField(l, bsF) {
+				continue
+			}
+			nBs++
+			key := fmt.Sprintf("%s#store %d to p.bs keeps the unread bytes", funcKey("syntax", fd), nBs)
+			rhs := ast.Unparen(as.Rhs[i])
+			ok, how := false, ""
+			if se, isSlice := rhs.(*ast.SliceExpr); isSlice && se.Low == nil && se.High != nil && exprString(se.X) == "p.readBuf" {
+				hi := ast.Unparen(se.High)
+				if isLeft(hi) {
+					ok, how = true, "the read buffer up to `left`"
+				} else if be, isBin := hi.(*ast.BinaryExpr); isBin && be.Op == token.ADD && (isLeft(be.X) || isLeft(be.Y)) {
+					ok, how = true, "the read buffer up to `left` plus what was read"
+				}
+				if ok {
+					// the unread bytes were moved to the start first
+					blk := blockContaining(g, as)
+					moved := false
+					if blk != nil {
+						moved, _ = g.MustPass(g.Entry, -1, blk, func(m ast.Node) bool {
+							for _, c := range nodeCalls(m) {
+								if id, isID := ast.Unparen(c.Fun).(*ast.Ident); isID && id.Name == "copy" && len(c.Args) == 2 {
+									d, dOK := ast.Unparen(c.Args[0]).(*ast.SliceExpr)
+									s2, sOK := ast.Unparen(c.Args[1]).(*ast.SliceExpr)
+									if dOK && sOK && exprString(d.X) == "p.readBuf" && d.Low == nil && d.High != nil && isLeft(d.High) &&
+										exprString(s2.X) == "p.readBuf" && s2.Low != nil && isField(stripConv(info, s2.Low), bspF) {
+										return true
+									}
+								}
+							}
+							return false
+						}, nil)
+					}
+					if !moved {
+						ok, how = false, "the unread bytes are not copied to the start of the read buffer on every path to this store"
+					}
+				}
+			} else if isNilIdent(info, rhs) {
+				blk := blockContaining(g, as)
+				if blk != nil && underEdges(g, blk, func(e *FEdge) bool {
+					b, isBin := ast.Unparen(e.Cond).(*ast.BinaryExpr)
+					if !isBin || e.Tag != nil || !isLeft(b.X) {
+						return false
+					}
+					tv, has := info.Types[b.Y]
+					if !has || tv.Value == nil || constant.Sign(tv.Value) != 0 {
+						return false
+					}
+					return (b.Op == token.GTR && !e.Pol) || (b.Op == token.LEQ && e.Pol) || (b.Op == token.EQL && e.Pol) || (b.Op == token.NEQ && !e.Pol)
+				}) {
+					ok, how = true, "nil where `left` is zero: there was nothing unread"
+				} else {
+					how = "the buffer is emptied on a path that did not find `left` to be zero"
+				}
+			} else {
+				how = "stores something other than the read buffer up to `left`"
+			}
+			r.Check(ok, rule, key, as.Pos(), how,
+				"fill replaces the buffer without keeping the bytes that were not read yet ("+how+"): rune() calls fill in the middle of a multi-byte rune and, on a zero answer, slices the bytes it was looking at — a truncated rune at the end of the input is then a slice out of range in Parse")
+		}
+		return true
+	})
+	if nBs == 0 || leftObj == nil {
+		r.Undecided(rule, funcKey("syntax", fd)+"#store to p.bs keeps the unread bytes", fd.Pos(), "fill no longer computes the unread length as len(p.bs) - int(p.bsp), or no longer stores p.bs: the rule does not see how the unread bytes are kept")
 	}
 }
 
